@@ -22,7 +22,7 @@ from .facts import Fn, callee
 # helpers of today's code and looks for the call; everything else that is helper-like is spliced in
 KEEP_NAMES = frozenset()
 KEEP_ID = ""
-MAX_CALLERS = 3
+MAX_CALLERS = 6
 MAX_BLOCKS = 300
 DEPTH = 3
 
